@@ -17,6 +17,8 @@ Block = one `C04.reset` line (the probe universe) followed by operations.
   C04.dhcpdel ipkind addr zone                       => …
   <client> = uid ver name nIP (ipkind addr zone)* nSub (is6 addr bits)* nMAC mac* nCID cid*
              invalidConf useOwn filt ssearch sbrowse parental useOwnSvc svc ssobj tags
+  C04.addS / C04.updateS name : the same with the identifiers as STRINGS, through SetIDs:
+     uid ver name nID (raw hasIP ipkind addr zone hasPfx is6 addr bits hasMAC mac)*nID  <8 flags/values as above>
   <res>  = ok | err <kind> | panic
   <seen> = - | uid:ver | D | P | S:name:tags:svc:f:ss:ssobj:sb:p:prot:untouched
 -/
@@ -84,6 +86,37 @@ def parseClient (fs : List String) : Option (Client × List String) := do
         | [] => none
       | [] => none
     | [] => none
+  | _ => none
+
+def takeIDStrings : Nat → List String → Option (List IDString × List String)
+  | 0, rest => some ([], rest)
+  | n + 1, raw :: hasIP :: k :: a :: z :: hasPfx :: is6 :: pa :: bits :: hasMAC :: mac :: rest => do
+    let asIP ← if (← parseBool hasIP) then (parseIP k a z).map some else pure none
+    let asPfx ← if (← parseBool hasPfx) then
+        (do pure (some (⟨← parseBool is6, beNat (← hexDecode pa), ← bits.toNat?⟩ : Prefix))) else pure none
+    let asMAC ← if (← parseBool hasMAC) then (hexDecode mac).map some else pure none
+    let id : IDString := ⟨← hexDecode raw, asIP, asPfx, asMAC⟩
+    let (ids, rest') ← takeIDStrings n rest
+    pure (id :: ids, rest')
+  | _, _ => none
+
+/-- A client given by identifier strings: the typed lists come from the model's `setIDs`. -/
+def parseClientS (fs : List String) : Option (Except SetErr Client × List String) := do
+  match fs with
+  | uid :: ver :: name :: nID :: rest =>
+    let (ids, rest) ← takeIDStrings (← nID.toNat?) rest
+    match rest with
+    | inv :: own :: f :: ss :: sb :: par :: ownSvc :: svc :: ssobj :: tags :: rest =>
+      let c : Client := {
+        uid := ← uid.toNat?, ver := ← ver.toNat?, name := ← hexDecode name
+        ips := [], subnets := [], macs := [], cids := []
+        invalidConf := ← parseBool inv, useOwnSettings := ← parseBool own
+        filteringEnabled := ← parseBool f, safeSearchEnabled := ← parseBool ss
+        safeBrowsingEnabled := ← parseBool sb, parentalEnabled := ← parseBool par
+        useOwnBlockedServices := ← parseBool ownSvc, svc := ← svc.toNat?
+        safeSearch := ← ssobj.toNat?, tags := ← tags.toNat? }
+      pure (setIDs c ids, rest)
+    | _ => none
   | _ => none
 
 def parseProbes : Nat → List String → Option (List Probe × List String)
@@ -169,19 +202,28 @@ def parseAll (s : String) : Option (List (Nat × Nat)) :=
     | [u, v] => do pure (← u.toNat?, ← v.toNat?)
     | _ => none
 
-def parseOp (op : String) (ins : List String) : Option Op := do
+def parseOp (op : String) (ins : List String) : Option (Except SetErr Op) := do
   match op, ins with
   | "C04.add", fs =>
     let (c, rest) ← parseClient fs
     if rest ≠ [] then none
-    pure (.add c)
+    pure (.ok (.add c))
   | "C04.update", name :: fs =>
     let (c, rest) ← parseClient fs
     if rest ≠ [] then none
-    pure (.update (← hexDecode name) c)
-  | "C04.remove", [name] => pure (.remove (← hexDecode name))
-  | "C04.dhcpset", [k, a, z, mac] => pure (.dhcpSet (← parseIP k a z) (← hexDecode mac))
-  | "C04.dhcpdel", [k, a, z] => pure (.dhcpDel (← parseIP k a z))
+    pure (.ok (.update (← hexDecode name) c))
+  | "C04.addS", fs =>
+    let (c, rest) ← parseClientS fs
+    if rest ≠ [] then none
+    pure (c.map Op.add)
+  | "C04.updateS", name :: fs =>
+    let (c, rest) ← parseClientS fs
+    if rest ≠ [] then none
+    let name ← hexDecode name
+    pure (c.map (Op.update name))
+  | "C04.remove", [name] => pure (.ok (.remove (← hexDecode name)))
+  | "C04.dhcpset", [k, a, z, mac] => pure (.ok (.dhcpSet (← parseIP k a z) (← hexDecode mac)))
+  | "C04.dhcpdel", [k, a, z] => pure (.ok (.dhcpDel (← parseIP k a z)))
   | _, _ => none
 
 /-- Split the implementation's observation: result, one field per probe, "R", all clients. -/
@@ -198,9 +240,13 @@ def splitImpl (nProbes : Nat) (impl : List String) : Option (Bool × List String
     | ["R", all] => if seen.length = nProbes then some (res == ["ok"], seen, all) else none
     | _ => none
 
-def stepOp (st : State) (op : Op) (impl : List String) : State × String :=
-  let (m', res) := step st.model op
-  let out := showRes res ++ st.probes.map (modelProbe m') ++
+def stepOp (st : State) (eop : Except SetErr Op) (impl : List String) : State × String :=
+  -- a client whose identifier strings SetIDs rejects never reaches the storage
+  let (m', resS, op) : Storage × List String × Op := match eop with
+    | .ok op => let (m', res) := step st.model op; (m', showRes res, op)
+    | .error .empty => (st.model, ["err", "emptyID"], .remove [])
+    | .error .badClientID => (st.model, ["err", "badID"], .remove [])
+  let out := resS ++ st.probes.map (modelProbe m') ++
     ["R", showAll (m'.index.rangeByName.map fun c => (c.uid, c.ver))]
   let agree := out == impl
   -- spec monitor on the implementation's observation
